@@ -416,6 +416,10 @@ func (SimpleColumn) readPred(scanner *bufio.Scanner, p ast.PredicateSym, numFact
 			if err != nil {
 				return fmt.Errorf("evaluating failed pred %v column %d fact %d: %w", p, j, i, ErrCouldNotRead)
 			}
+			if _, ok := c.(ast.Constant); !ok {
+				// A line such as "X" or "NaN" parses as a variable; facts are ground.
+				return fmt.Errorf("not a constant pred %v column %d fact %d: %w", p, j, i, ErrCouldNotRead)
+			}
 			args[i][j] = c
 			if filter == nil {
 				continue
